@@ -13,7 +13,7 @@ import (
 // flavourOf: which build of the harness a property needs.
 func flavourOf(id string) string {
 	switch id {
-	case "C09":
+	case "C09", "C17":
 		return "shim"
 	case "C10":
 		return "shimrace"
